@@ -161,10 +161,22 @@ class Model(object):
         return (fk, nk)
 
 
+def _recnum(rec):
+    """Record number addressed by a literal: rounded to the nearest whole number (ties are not generated)."""
+    if not isinstance(rec, str):
+        return rec
+    from fractions import Fraction
+    v = Fraction(rec.rstrip('#!'))
+    if (v * 2).denominator == 1 and v.denominator != 1:
+        raise CheckError('tie record number %r' % rec)
+    return int(v + Fraction(1, 2)) if v >= 0 else -int(-v + Fraction(1, 2))
+
+
 def _rec_class(model, n, rec):
     s = model.nums[n]
     f = model.files[s.file]
-    r = s.loc + 1 if rec is None else rec
+    r = s.loc + 1 if rec is None else _recnum(rec)
+    frac = isinstance(rec, str) and _recnum(rec) != float(rec.rstrip('#!'))
     nrec = f.nrec()
     if r <= nrec:
         pos = 'inside'
@@ -172,13 +184,13 @@ def _rec_class(model, n, rec):
         pos = 'at-end'
     else:
         pos = 'beyond-end'
-    return ('implicit-' if rec is None else '') + pos
+    return ('implicit-' if rec is None else 'fractional-' if frac else '') + pos
 
 
 def _invalid(rec):
     if rec is None:
         return False
-    v = float(rec) if isinstance(rec, str) else rec
+    v = _recnum(rec)
     return not (1 <= v <= BIG)
 
 
@@ -296,7 +308,7 @@ def _model_step(model, op, depth, real_bufs=None):
         f = model.files[s.file]
         if _invalid(rec):
             return BAD_REC, 'bad-record'
-        rr = s.loc + 1 if rec is None else int(float(rec)) if isinstance(rec, str) else rec
+        rr = s.loc + 1 if rec is None else _recnum(rec)
         if k == 'P':
             f.put(rr, bytes(s.buf))
             model.writer[s.file][rr] = n
@@ -534,6 +546,8 @@ def _cfgs(ctx):
             (('cfg', 'diff', 2, recs, ()), 4),
             (('cfg', 'same', 2, recs, ()), 4),
             (('cfg', 'pre', 4, (None, 1, 2, 3, 5), ()), 4),
+            # record numbers with a fraction address the nearest record
+            (('cfg', 'one', 2, (None, 1, '2.75', '1.4', '3.6#'), ()), 4),
         ]
     recs = (None, 1, 2, 3, 5, 12)
     probes = (0, -1, '33554436', '4E7')
@@ -547,6 +561,7 @@ def _cfgs(ctx):
         (('cfg', 'same', 128, (None, 1, 2, 5), ()), 4),
         (('cfg', 'pre', 4, (None, 1, 2, 3, 5), (0,)), 6),
         (('cfg', 'pre', 3, (None, 1, 2, 3, 4), ()), 5),
+        (('cfg', 'one', 2, (None, 1, 2, '2.75', '1.4', '3.6#', '4.5001'), ('.4', '33554436.6#')), 5),
     ]
 
 
@@ -554,7 +569,8 @@ def legs(ctx):
     out = []
     for cfg, depth in _cfgs(ctx):
         _, layout, r, recs, probes = cfg
-        out.append(Leg('bfs-%s-len%d' % (layout, r), [(cfg, depth)], work_bfs, exhaustive=True, serial=True,
+        frac = '-fractional' if any(isinstance(x, str) and '.' in x for x in recs) else ''
+        out.append(Leg('bfs-%s-len%d%s' % (layout, r, frac), [(cfg, depth)], work_bfs, exhaustive=True, serial=True,
                        bound='all histories to depth %d; layout %s; LEN=%d; PUT/GET record in %r + GET 2^25; '
                              'bad-record probes %r; FIELD x2 layouts, LSET, RSET, CLOSE, re-OPEN' % (
                                  depth, layout, r, recs, probes)))
